@@ -100,7 +100,11 @@ func BuildSchemaValidation(schema *openapi3.SchemaRef, validationString string, 
 			}
 		case "min":
 			if specType == "string" {
-				schema.Value.MinLength = *swagtool.ParseUInteger(ruleValue)
+				if length := swagtool.ParseUInteger(ruleValue); length != nil {
+					schema.Value.MinLength = *length
+				} else {
+					logger.Warn("Validation rule 'min' has a non-numeric value '%s'", ruleValue)
+				}
 			} else if specType == "integer" || specType == "number" {
 				schema.Value.Min = swagtool.ParseNumber(ruleValue)
 				schema.Value.ExclusiveMin = false
@@ -119,8 +123,12 @@ func BuildSchemaValidation(schema *openapi3.SchemaRef, validationString string, 
 		case "len":
 			if specType == "string" {
 				length := swagtool.ParseUInteger(ruleValue)
-				schema.Value.MinLength = *length
-				schema.Value.MaxLength = length
+				if length != nil {
+					schema.Value.MinLength = *length
+					schema.Value.MaxLength = length
+				} else {
+					logger.Warn("Validation rule 'len' has a non-numeric value '%s'", ruleValue)
+				}
 			} else {
 				logger.Warn("Validation rule 'len' is only applicable to string fields, got %s", specType)
 			}
@@ -132,7 +140,11 @@ func BuildSchemaValidation(schema *openapi3.SchemaRef, validationString string, 
 			}
 		case "minItems":
 			if specType == "array" {
-				schema.Value.MinItems = *swagtool.ParseUInteger(ruleValue)
+				if minItems := swagtool.ParseUInteger(ruleValue); minItems != nil {
+					schema.Value.MinItems = *minItems
+				} else {
+					logger.Warn("Validation rule 'minItems' has a non-numeric value '%s'", ruleValue)
+				}
 			} else {
 				logger.Warn("Validation rule 'minItems' is only applicable to array fields, got %s", specType)
 			}
@@ -144,7 +156,11 @@ func BuildSchemaValidation(schema *openapi3.SchemaRef, validationString string, 
 			}
 		case "uniqueItems":
 			if specType == "array" {
-				schema.Value.UniqueItems = *swagtool.ParseBool(ruleValue)
+				if unique := swagtool.ParseBool(ruleValue); unique != nil {
+					schema.Value.UniqueItems = *unique
+				} else {
+					logger.Warn("Validation rule 'uniqueItems' has a non-boolean value '%s'", ruleValue)
+				}
 			} else {
 				logger.Warn("Validation rule 'uniqueItems' is only applicable to array fields, got %s", specType)
 			}
